@@ -157,6 +157,9 @@ def run(scenario, tape_values):
     bottom_loggers = [(i, stack[i]) for i in range(bottom_start, len(kinds)) if kinds[i] == "logger"]
     top_loggers = [(i, stack[i]) for i in range(0, top_end) if kinds[i] == "logger" and i < bottom_start]
 
+    first_buffer = kinds.index("buffer") if "buffer" in kinds else len(kinds)
+    sync_loggers = [i for i in range(first_buffer) if kinds[i] == "logger"]
+
     def passthrough_check(tag):
         world.op = "observe"
         try:
@@ -180,7 +183,16 @@ def run(scenario, tape_values):
             await trio.sleep_until(op["t"])
             k = op["k"]
             if k == "write":
-                world.log("top-write", value=op["value"])
+                # what each Logger that this write reaches synchronously (no Buffer above it) must report as
+                # its target's state "from before the write": read it the way the Logger itself will
+                world.op = "pre-read"
+                pre = {}
+                for i in sync_loggers:
+                    tgt = objs[i + 1] if i + 1 < len(objs) else pool
+                    pre[i] = {"demand": tgt.demand, "supply": pool._supply, "utilisation": pool._utilisation, "allocation": pool._allocation}
+                world.op = None
+                w = world.log("top-write", value=op["value"])
+                w["pre"] = {str(i): dict(v) for i, v in pre.items()}
                 world.op = "write"
                 top.demand = op["value"]
                 world.op = None
@@ -242,6 +254,20 @@ def run(scenario, tape_values):
                 V("C16/record-count-top", "write of %r at the top: Logger #%d (%s) emitted %d records, expected %d" % (w["value"], i, spec["_resolved_name"], len(mine), len(same)))
             elif any(r["args"].get("value") != w["value"] for r in mine):
                 V("C16/record-fields/value-top", "write of %r at the top: Logger #%d logged value %r" % (w["value"], i, [r["args"].get("value") for r in mine]))
+    # every Logger that a top write reaches synchronously: exactly one record, carrying its own target's state
+    for n, w in enumerate(tw):
+        hi = tw[n + 1]["seq"] if n + 1 < len(tw) else 10**12
+        for i in sync_loggers:
+            spec = stack[i]
+            mine = [r for r in ev if r["kind"] == "log-record" and w["seq"] < r["seq"] < hi and r.get("op") == "write" and r["target_tok"] == spec["_target_tok"]]
+            if len(mine) != 1:
+                V("C16/record-count-sync", "write of %r at the top of %r: Logger #%d emitted %d records, expected 1" % (w["value"], kinds, i, len(mine)))
+                continue
+            want = w["pre"][str(i)]
+            a = mine[0]["args"]
+            bad = {k: (a.get(k), v) for k, v in want.items() if a.get(k) != v}
+            if bad:
+                V("C16/record-fields-target/%s" % sorted(bad)[0], "write of %r at the top of %r: the record of Logger #%d (target: %s) carries %r; its target's state before the write was (field: got, wanted) %r" % (w["value"], kinds, i, kinds[i + 1] if i + 1 < len(kinds) else "pool", {k: a.get(k) for k in want}, bad))
     shape = ["C16", kinds, sorted({o["k"] for o in ops}), min(len(ops), 13), len(sc.get("template_probes", []))]
     nrec = sum(1 for e in ev if e["kind"] == "log-record")
     world.probe("log-records", nrec)
